@@ -252,7 +252,9 @@ static void run_ledger(State& S) {
       // 2 GiB arena), so this is judged from the 4th repetition on and only for single-threaded (deterministic) workloads
       if (i >= 4 && S.cfg.workload != 4 && m.mapped > p.mapped)
         vf_trip("mapped-grows", "C11", "repetition %d: mapped memory grew from %zu to %zu bytes across identical repetitions (non-arena: %zu -> %zu)", i, p.mapped, m.mapped, p.mapped_nonarena, m.mapped_nonarena);
-      if (m.resident > p.resident + 1 * MiB)
+      // (with purging disabled by option freed arena memory stays committed, and a repetition need not land on the same arena blocks as the one before:
+      //  resident memory then legitimately grows until the arenas have been touched completely -- only the mappings are judged in that configuration)
+      if (purge_delay >= 0 && m.resident > p.resident + 1 * MiB)
         vf_trip("resident-grows", "C11", "repetition %d: committed resident memory grew from %zu to %zu bytes across identical repetitions", i, p.resident, m.resident);
     }
   }
@@ -337,7 +339,9 @@ static void run_purge(State& S) {
     // calibrated on the repaired tree (also under load): at most ~15% is left (pages retired for a few cycles, one segment kept by the heap)
     if (d == 0 && freed >= 16 * MiB && c1.purge_calls == c0.purge_calls)
       vf_trip("not-purged-immediately", "C18", "purge_delay=0, scenario %s: %zu bytes became unused but no purge call was made while they were freed", sc.c_str(), freed);
-    const size_t pct = (sc == "pages" ? 65 : 35);   // page-level purging inside live segments is lazy by design (needs later activity in that segment)
+    // page-level purging inside live segments is lazy by design (needs later activity in that segment): the page scenario is only a smoke test here
+    // (observed up to 69% left on the unchanged tree); the exact scenarios (holes, trickle) judge page-level purging range by range
+    const size_t pct = (sc == "pages" ? 90 : 35);
     if (freed >= 16 * MiB && left * 100 > freed * pct)
       vf_trip("not-purged-after-delay", "C18", "purge_delay=%ld (arena multiplier %ld), scenario %s: %zu bytes became unused (a forced collect returns them) but %zu bytes (%zu%%) were still committed "
               "after the delay had expired 4 times with ordinary activity and non-forced collects (%llu purge calls in that time)", d, mult, sc.c_str(), freed, left, left * 100 / (freed ? freed : 1),
